@@ -4,27 +4,70 @@ TLV = "mod:github.com/lightningnetwork/lnd/tlv"
 
 PROP = dict(
     level="exploration",
-    rule=("draft"),
-    assumptions=[],
+    level_text=("exploration: generated values, structure-aware mutations and raw bytes for every "
+                "registered message type / failure code; no fault points to enumerate"),
+    technique=("rapid property tests (value round trip, bytes fixpoint with double decode, "
+               "allocation measurement, differential against an independent TLV/BigSize reference "
+               "parser) + native Go fuzzing with a run-time seed corpus (thorough)"),
+    rule=("lnwire: rapid draws a registered message type (every code < 32768 that makeEmptyMessage "
+          "accepts, found by probing, plus custom-range codes) and either (1) a value from the "
+          "repository's RandTestMessage generator, optionally with unknown odd TLV records injected: "
+          "encode <= 65535 bytes, decode ~ value (compared with the value after Encode and with a deep "
+          "copy taken before Encode), re-encode byte-identical, unknown records still on the wire; or "
+          "(2) bytes = a valid encoding under one structure-aware mutation (truncate, extend, bit "
+          "flip, hostile byte/u16, retype, TLV record splice/swap/dup/delete, non-minimal BigSize, "
+          "lying TLV length, hand-built zlib/plain short-channel-id bodies) or raw bytes: decode "
+          "must not panic or allocate > 24 MiB and, if it succeeds, Write/Read/Write is a fixpoint "
+          "(m2 ~ m1 on a pristine second decode, b2 == b1); same for DecodeFailureMessage/"
+          "EncodeFailureMessage over every failure code and the DecodeFailure/EncodeFailure packet. "
+          "tlv: a generated set of known records (all primitive, truncated-int and BigSize codecs) "
+          "and a generated stream with canonical-form faults: every Decode variant accepts iff the "
+          "independent reference parser accepts and each known value fits its codec; on accept "
+          "decode-then-encode reproduces the input. "
+          "Non-trivial = (bytes tests) input accepted AND different from a generator-produced "
+          "encoding; (TLV tests) accepted with >= 2 records incl. a known one, or rejected for a "
+          "canonical-form reason (non-minimal, order, too large, codec length) rather than plain "
+          "truncation; (value tests) every generated message with a body; (size/alloc tests) every "
+          "case. Distinct = distinct input bytes."),
+    assumptions=[
+        "value equivalence is deep equality with nil==empty slices/maps and net.Addr compared by String() (the relaxations lnd's own Fuzz* harnesses document); raw ExtraOpaqueData caches are decided by the byte-level fixpoint instead",
+        "the allocation cap (24 MiB per decode of <= 65535 bytes; observed maximum 4.9 MiB = make([]Sig, 65535)) is a calibrated constant, not derived from the statement's '65 KB'",
+        "the non-P2P tlv Decode is a trusted-input API and is only fed declared lengths <= 1 MiB (or >= 2^63 on the discard path)",
+        "structure-aware mutations locate the TLV extension of a message by a suffix heuristic (smallest offset whose suffix is a canonical stream); it only aims mutations, it is not an oracle",
+        "maxDecodedShortChanIDs (100000) is not reachable within the 65535-byte wire bound with any zlib stream the harness can build (Go's encoder tops out at ~33k ids), so its removal is not observable through ReadMessage",
+    ],
     jobs=dict(
         quick=[
-            job("lnwire", "^TestVerifC10ValueRoundTrip$", ["TestVerifC10ValueRoundTrip"], 3000, shards=2),
-            job("lnwire", "^TestVerifC10SizeBoundary$", ["TestVerifC10SizeBoundary"], 300, shards=1),
-            job("lnwire", "^TestVerifC10BytesFixpoint$", ["TestVerifC10BytesFixpoint"], 3000, shards=2),
-            job("lnwire", "^TestVerifC10Prefixes$", ["TestVerifC10Prefixes"], 100, shards=1),
-            job("lnwire", "^TestVerifC10AllocBound$", ["TestVerifC10AllocBound"], 30, shards=2, v=True),
-            job("lnwire", "^TestVerifC10(OnionFailure|FailurePacket)$", ["TestVerifC10OnionFailure", "TestVerifC10FailurePacket"], 3000, shards=1),
-            job("lnwire", "^TestVerifC10(ExtraDataTLV|CustomRecords)$", ["TestVerifC10ExtraDataTLV", "TestVerifC10CustomRecords"], 5000, shards=1),
-            job(TLV, "^TestVerifC10TLVStream$", ["TestVerifC10TLVStream"], 20000, shards=2),
-            job(TLV, "^TestVerifC10(VarInt|Truncated)$", ["TestVerifC10VarInt", "TestVerifC10Truncated"], 20000, shards=1),
+            job("lnwire", "^TestVerifC10ValueRoundTrip$", ["TestVerifC10ValueRoundTrip"], 7000, shards=2),
+            job("lnwire", "^TestVerifC10SizeBoundary$", ["TestVerifC10SizeBoundary"], 400, shards=1),
+            job("lnwire", "^TestVerifC10BytesFixpoint$", ["TestVerifC10BytesFixpoint"], 7000, shards=2),
+            job("lnwire", "^TestVerifC10Prefixes$", ["TestVerifC10Prefixes"], 150, shards=1),
+            job("lnwire", "^TestVerifC10AllocBound$", ["TestVerifC10AllocBound"], 25, shards=2),
+            job("lnwire", "^TestVerifC10(OnionFailure|FailurePacket)$",
+                ["TestVerifC10OnionFailure", "TestVerifC10FailurePacket"], 6000, shards=1),
+            job("lnwire", "^TestVerifC10(ExtraDataTLV|CustomRecords)$",
+                ["TestVerifC10ExtraDataTLV", "TestVerifC10CustomRecords"], 8000, shards=1),
+            job(TLV, "^TestVerifC10TLVStream$", ["TestVerifC10TLVStream"], 25000, shards=2),
+            job(TLV, "^TestVerifC10(VarInt|Truncated)$", ["TestVerifC10VarInt", "TestVerifC10Truncated"], 30000, shards=1),
         ],
         thorough=[
-            job("lnwire", "^FuzzVerifC10Message$", [], 0, fuzz="^FuzzVerifC10Message$", fuzztime="20s", parallel=4, timeout=600),
-            job("lnwire", "^FuzzVerifC10Failure$", [], 0, fuzz="^FuzzVerifC10Failure$", fuzztime="20s", parallel=4, timeout=600),
-            job("lnwire", "^FuzzVerifC10Mutate$", [], 0, fuzz="^FuzzVerifC10Mutate$", fuzztime="20s", parallel=4, timeout=600),
-            job("lnwire", "^FuzzVerifC10Value$", [], 0, fuzz="^FuzzVerifC10Value$", fuzztime="20s", parallel=4, timeout=600),
-            job(TLV, "^FuzzVerifC10TLVRaw$", [], 0, fuzz="^FuzzVerifC10TLVRaw$", fuzztime="20s", parallel=4, timeout=600),
-            job(TLV, "^FuzzVerifC10TLVGen$", [], 0, fuzz="^FuzzVerifC10TLVGen$", fuzztime="20s", parallel=4, timeout=600),
+            job("lnwire", "^TestVerifC10ValueRoundTrip$", ["TestVerifC10ValueRoundTrip"], 30000, shards=3, timeout=900),
+            job("lnwire", "^TestVerifC10SizeBoundary$", ["TestVerifC10SizeBoundary"], 4000, shards=1, timeout=900),
+            job("lnwire", "^TestVerifC10BytesFixpoint$", ["TestVerifC10BytesFixpoint"], 40000, shards=3, timeout=900),
+            job("lnwire", "^TestVerifC10Prefixes$", ["TestVerifC10Prefixes"], 1000, shards=1, timeout=900),
+            job("lnwire", "^TestVerifC10AllocBound$", ["TestVerifC10AllocBound"], 100, shards=3, timeout=900),
+            job("lnwire", "^TestVerifC10(OnionFailure|FailurePacket)$",
+                ["TestVerifC10OnionFailure", "TestVerifC10FailurePacket"], 60000, shards=1, timeout=900),
+            job("lnwire", "^TestVerifC10(ExtraDataTLV|CustomRecords)$",
+                ["TestVerifC10ExtraDataTLV", "TestVerifC10CustomRecords"], 80000, shards=1, timeout=900),
+            job(TLV, "^TestVerifC10TLVStream$", ["TestVerifC10TLVStream"], 150000, shards=3, timeout=900),
+            job(TLV, "^TestVerifC10(VarInt|Truncated)$", ["TestVerifC10VarInt", "TestVerifC10Truncated"], 300000, shards=1, timeout=900),
+            job("lnwire", "^FuzzVerifC10Message$", [], 0, fuzz="^FuzzVerifC10Message$", fuzztime="90s", parallel=4, timeout=900),
+            job("lnwire", "^FuzzVerifC10Failure$", [], 0, fuzz="^FuzzVerifC10Failure$", fuzztime="60s", parallel=3, timeout=900),
+            job("lnwire", "^FuzzVerifC10Mutate$", [], 0, fuzz="^FuzzVerifC10Mutate$", fuzztime="90s", parallel=4, timeout=900),
+            job("lnwire", "^FuzzVerifC10Value$", [], 0, fuzz="^FuzzVerifC10Value$", fuzztime="60s", parallel=3, timeout=900),
+            job(TLV, "^FuzzVerifC10TLVRaw$", [], 0, fuzz="^FuzzVerifC10TLVRaw$", fuzztime="90s", parallel=4, timeout=900),
+            job(TLV, "^FuzzVerifC10TLVGen$", [], 0, fuzz="^FuzzVerifC10TLVGen$", fuzztime="60s", parallel=3, timeout=900),
         ],
     ),
 )
